@@ -70,7 +70,7 @@ func (c *cutAt) Read(p []byte) (int, error) {
 		return 0, io.EOF
 	}
 	end := len(c.b)
-	if c.pos < c.at {
+	if c.pos < c.at && c.at < len(c.b) {
 		end = c.at
 	}
 	n := copy(p, c.b[c.pos:end])
